@@ -20,7 +20,7 @@ ACT_FOLDER = "game/agent/actions/folder.py"
 TRANSCRIBED = {
     ("FileSystem", FS): ["__init__", "create_folder", "delete_folder", "get_folder", "create_file", "get_file", "delete_file",
                          "restore_folder", "restore_file", "access_file", "pre_timestep", "apply_timestep", "describe_state",
-                         "copy_file", "move_file", "delete_file_by_id", "delete_folder_by_id", "get_folder_by_id"],
+                         "copy_file", "move_file", "delete_file_by_id", "delete_folder_by_id", "get_folder_by_id", "scan"],
     # restore_file and add_file are tied semantically instead (extract/fsxlate.py, C15_gen_restore_file / C15_gen_add_file)
     ("Folder", FOLDER): ["get_file", "get_file_by_id", "remove_file", "remove_file_by_id", "pre_timestep", "_scan_timestep", "scan", "repair", "corrupt", "remove_file_by_name", "remove_all_files",
                          "restore", "delete", "_restoring_timestep", "apply_timestep", "describe_state"],
@@ -197,6 +197,49 @@ def _actions(rel: str) -> List[Tuple[str, List[str], List[str]]]:
     return out
 
 
+def _arity(text: str) -> int:
+    ks = [int(k) for k in re.findall(r"request\[(\d+)\]", text)]
+    return max(ks) + 1 if ks else 0
+
+
+def _request_table(fs_rows, handlers: Dict[str, str], folder_rows, verbs) -> List[List[str]]:
+    """The full request table below `file_system`: sub-managers expanded, `<F>` / `<x>` / `<force>` where a handler indexes
+    `request[0..2]`, the dynamic folder / file levels followed into Folder's and File's own tables. Strict."""
+    subs: Dict[str, list] = {}
+    for mgr, name, func, val in fs_rows:
+        subs.setdefault(mgr, []).append((name, func))
+    item = [v for v, _ in verbs]
+    names = ["<F>", "<x>", "<force>"]
+
+    def leaf(prefix: List[str], func: str, argnames: List[str]) -> List[str]:
+        text = handlers.get(func, func)
+        n = _arity(text)
+        if n > len(argnames):
+            raise ValueError(f"handler of {prefix} indexes request[{n - 1}]")
+        return prefix + argnames[:n]
+
+    out: List[List[str]] = []
+    for name, func in subs.get("rm", []):
+        if func in subs:  # a static sub-manager
+            out += [leaf([name, sub], f, names) for sub, f in subs[func]]
+        elif func == "self._folder_request_manager":  # keyed by folder name, then the folder's own table
+            out += [[name, "<F>", v] for v in item]
+            for mgr, sub, f, val in folder_rows:
+                if mgr != "rm":
+                    raise ValueError(f"Folder registers {sub} on {mgr}")
+                if f == "self._file_request_manager":  # keyed by file name, then the file's own table
+                    out += [[name, "<F>", sub, "<x>", v] for v in item]
+                else:
+                    out.append(leaf([name, "<F>", sub], f, ["<x>"]))
+        elif func in handlers and "file._request_manager(request[2:], context)" in handlers[func]:
+            if "folder_name=request[0], file_name=request[1]" not in handlers[func]:
+                raise ValueError(f"{func}: unrecognised file route handler")
+            out += [[name, "<F>", "<x>", v] for v in item]
+        else:
+            out.append(leaf([name], func, names))
+    return out
+
+
 def emit() -> str:
     fs_t, fo_t, fi_t, it_t = parse(FS), parse(FOLDER), parse(FILE), parse(ITEM)
     fs_c, fo_c, fi_c, it_c = class_def(fs_t, "FileSystem"), class_def(fo_t, "Folder"), class_def(fi_t, "File"), class_def(it_t, "FileSystemItemABC")
@@ -226,6 +269,14 @@ def emit() -> str:
     L.append("/-- the local handler functions of `FileSystem._init_request_manager`, cleaned -/")
     L.append("def fsHandlers : List (String × String) := [")
     L.append(",\n".join(f"  ({lean_str(n.name)}, {lean_str(cleaned(n))})" for n in irm.body if isinstance(n, ast.FunctionDef)))
+    L.append("]")
+
+    # the full request table
+    handlers = {n.name: cleaned(n) for n in irm.body if isinstance(n, ast.FunctionDef)}
+    table = _request_table(_add_requests(irm), handlers, _add_requests(find_method(fo_c, "_init_request_manager")), verbs)
+    L.append("/-- every request shape below `file_system` (sub-managers expanded; `<F>`, `<x>`, `<force>` = what a handler indexes) -/")
+    L.append("def requestTable : List (List String) := [")
+    L.append(",\n".join("  [" + ", ".join(lean_str(t) for t in row) + "]" for row in table))
     L.append("]")
 
     # validators
@@ -272,6 +323,19 @@ def emit() -> str:
             rows.append((f"{cn}.{m}", cleaned(find_method(c, m))))
     L.append(",\n".join(f"  ({lean_str(a)}, {lean_str(b)})" for a, b in rows))
     L.append("]")
+
+    # method inventory: every method (and property) of the four classes, in source order; and the ones some tie reads
+    inv = []
+    for c in (fs_c, fo_c, fi_c, it_c):
+        inv += [f"{c.name}.{n.name}" for n in c.body if isinstance(n, (ast.FunctionDef, ast.AsyncFunctionDef))]
+    L.append("/-- every method and property of FileSystem, Folder, File, FileSystemItemABC, in source order -/")
+    L.append("def methodInventory : List String := [" + ", ".join(lean_str(m) for m in inv) + "]")
+    tied = [f"{cn}.{m}" for (cn, rel), ms in TRANSCRIBED.items() for m in ms]          # textual snapshot
+    tied += ["Folder.restore_file", "Folder.add_file"]                                   # translated (extract/fsxlate.py)
+    tied += [f"{cn}.{m}" for (cn, rel), ms in GUARDED.items() for m in ms if m == "check_hash"]  # guard table
+    tied += ["FileSystem._init_request_manager", "Folder._init_request_manager", "FileSystemItemABC._init_request_manager"]
+    L.append("/-- the methods some obligation reads: textual snapshot, statement translation, guard table, request trees -/")
+    L.append("def tiedMethods : List String := [" + ", ".join(lean_str(m) for m in tied) + "]")
 
     # action templates
     acts = _actions(ACT_FILE) + _actions(ACT_FOLDER)
